@@ -960,6 +960,16 @@ func runChild(seed int64, n int, dir string, withCorpus bool) {
 		c.scanView("SELECT * FROM dtt", "re-read table cell")
 	}
 
+	if os.Getenv("C14_ONLY_GW") != "" { // debugging aid: the grammar-derived workloads alone
+		if k, err := strconv.Atoi(os.Getenv("C14_GW_PICK")); err == nil {
+			for i := 0; i < k; i++ {
+				c.grammarPhase(repo, false, 3)
+			}
+			return
+		}
+		c.grammarPhase(repo, true, 0)
+		return
+	}
 	if withCorpus {
 		for ci, q := range corpus {
 			o.Count("kind:corpus")
@@ -1028,11 +1038,18 @@ func runChild(seed int64, n int, dir string, withCorpus bool) {
 		o.Count("nullarg_phase")
 		_, _ = pr.Exec("SET @@CPU TO 4;")
 	}
+	if withCorpus {
+		// every statement kind and operand position of the grammar, operands of every type from every kind of holder
+		// (workloads.go, grammar.go)
+		c.grammarPhase(repo, true, 0)
+	}
 	for it := 0; it < n; it++ {
 		c.seq++
-		kind := []string{"plain", "plain", "while", "udf", "prepared", "reread_table", "reread_cursor", "reread_variable", "dtcell", "fromlist", "dml_alias", "uda_pool", "extra_column", "cte_twice", "dispose_shared", "unary", "multi_dml"}[it%17]
+		kind := []string{"plain", "plain", "while", "udf", "prepared", "reread_table", "reread_cursor", "reread_variable", "dtcell", "fromlist", "dml_alias", "uda_pool", "extra_column", "cte_twice", "dispose_shared", "unary", "multi_dml", "grammar"}[it%18]
 		o.Count("kind:" + kind)
 		switch kind {
+		case "grammar":
+			c.grammarPhase(repo, false, 2)
 		case "plain":
 			q, form := c.selectStmt()
 			r1, e1 := c.execChecked(q+";", kind)
